@@ -216,6 +216,7 @@ func checkC04(r *core.Result) {
 			if len(r.Samples) < 6 {
 				r.Sample(map[string]string{"message": mc.name(), "size": sit.Total.String()})
 			}
+			extensionAsserts(r, ex, u, mc)
 			// Marshal() wrapper
 			okW, why := marshalWrapperOK(mc)
 			r.Ob("M-wrapper", mc.name()+" Marshal() = make(Size()) + MarshalTo", mc.pos(ex, mc.marshal.Pos()), okW, why)
@@ -284,3 +285,131 @@ func marshalWrapperOK(mc *msgCode) (bool, string) {
 	}
 	return true, ""
 }
+
+// extensionAsserts (M-assert): a type assertion on a value obtained from GetExtension must name the Go
+// type the runtime stores for that extension, otherwise Size()/MarshalTo() panic as soon as it is set.
+func extensionAsserts(r *core.Result, ex *e3.Expansion, u *e3.Unit, mc *msgCode) {
+	info := u.Pkg.TypesInfo
+	// ExtensionType per field number, from the runtime's own generated descriptors
+	extType := map[string]types.Type{}
+	for _, file := range u.Pkg.Syntax {
+		ast.Inspect(file, func(n ast.Node) bool {
+			cl, ok := n.(*ast.CompositeLit)
+			if !ok {
+				return true
+			}
+			var et types.Type
+			num := ""
+			for _, el := range cl.Elts {
+				kv, ok := el.(*ast.KeyValueExpr)
+				if !ok {
+					continue
+				}
+				k, _ := kv.Key.(*ast.Ident)
+				if k == nil {
+					continue
+				}
+				switch k.Name {
+				case "ExtensionType":
+					et = info.TypeOf(kv.Value)
+				case "Field":
+					if tv := info.Types[kv.Value]; tv.Value != nil {
+						num = tv.Value.ExactString()
+					}
+				}
+			}
+			if et != nil && num != "" {
+				extType[num] = et
+			}
+			return true
+		})
+	}
+	if mc.unit.GenFile == nil {
+		return
+	}
+	for _, m := range allGenMessagesWithMaps(mc.unit.GenFile) {
+		for _, e := range m.Extensions {
+			if e.Extendee == nil || e.Extendee.GoIdent != mc.desc.GoIdent {
+				continue
+			}
+			et := extType[fmt.Sprint(e.Desc.Number())]
+			if et == nil {
+				r.GroupOb("M-assert", "extension descriptors carry an ExtensionType", mc.name()+" "+string(e.Desc.Name()), "corpus:"+u.File.Pkg, false, "no ExtensionType found for the extension in the runtime's generated code")
+				continue
+			}
+			want := et
+			if u.Combo.Runtime == "google" {
+				// the v2 API hands out scalar and enum values, not pointers to them
+				if p, ok := et.(*types.Pointer); ok {
+					if _, isStruct := p.Elem().Underlying().(*types.Struct); !isStruct {
+						want = p.Elem()
+					}
+				}
+			}
+			ev := "E_" + e.GoIdent.GoName
+			for _, fd := range []*ast.FuncDecl{mc.size, mc.marshalTo} {
+				// variables bound to GetExtension(m, E_x)
+				bound := map[types.Object]bool{}
+				ast.Inspect(fd.Body, func(n ast.Node) bool {
+					as, ok := n.(*ast.AssignStmt)
+					if !ok || len(as.Rhs) != 1 {
+						return true
+					}
+					c, ok := as.Rhs[0].(*ast.CallExpr)
+					if !ok {
+						return true
+					}
+					if fn := staticCallee(info, c); fn == nil || fn.Name() != "GetExtension" || len(c.Args) != 2 || types.ExprString(c.Args[1]) != ev {
+						return true
+					}
+					if id, ok := as.Lhs[0].(*ast.Ident); ok {
+						if o := info.Defs[id]; o != nil {
+							bound[o] = true
+						} else if o := info.Uses[id]; o != nil {
+							bound[o] = true
+						}
+					}
+					// assertions inside the if statement this assignment initialises
+					return true
+				})
+				// the assertions that follow the binding, up to the next GetExtension
+				var lastBind token.Pos
+				var nextBind token.Pos
+				ast.Inspect(fd.Body, func(n ast.Node) bool {
+					c, ok := n.(*ast.CallExpr)
+					if !ok {
+						return true
+					}
+					if fn := staticCallee(info, c); fn != nil && fn.Name() == "GetExtension" && len(c.Args) == 2 {
+						if types.ExprString(c.Args[1]) == ev {
+							lastBind = c.Pos()
+						} else if lastBind.IsValid() && c.Pos() > lastBind && !nextBind.IsValid() {
+							nextBind = c.Pos()
+						}
+					}
+					return true
+				})
+				if !lastBind.IsValid() {
+					continue
+				}
+				ast.Inspect(fd.Body, func(n ast.Node) bool {
+					ta, ok := n.(*ast.TypeAssertExpr)
+					if !ok || ta.Type == nil || ta.Pos() < lastBind || (nextBind.IsValid() && ta.Pos() > nextBind) {
+						return true
+					}
+					id, ok := ta.X.(*ast.Ident)
+					if !ok || !bound[info.Uses[id]] {
+						return true
+					}
+					got := info.TypeOf(ta.Type)
+					okT := got != nil && types.Identical(got, want)
+					r.GroupOb("M-assert", "extension value assertions name the Go type stored by the "+u.Combo.Runtime+" runtime", fmt.Sprintf("%s.%s %s in %s", u.File.Pkg, mc.goName, e.Desc.Kind(), fd.Name.Name), mc.pos(ex, ta.Pos()), okT,
+						fmt.Sprintf("the value is asserted as %s but the runtime's GetExtension returns %s: %s() panics (interface conversion) as soon as the extension is set", types.TypeString(got, shortQual), types.TypeString(want, shortQual), fd.Name.Name))
+					return true
+				})
+			}
+		}
+	}
+}
+
+func shortQual(p *types.Package) string { return p.Name() }
